@@ -27,6 +27,10 @@ func main() {
 		childMain(os.Args[2:])
 		return
 	}
+	if os.Args[1] == "__nocap" && len(os.Args) > 2 {
+		jpNocapChild(os.Args[2])
+		return
+	}
 	cfg := parseConfig(os.Args[2:])
 	fn, ok := subcmds[os.Args[1]]
 	if !ok {
